@@ -112,3 +112,19 @@ Inductive reachv (h : heap) : value -> nat -> Prop :=
 Definition marks_ok (h : heap) : Prop :=
   (forall n k, n_sub (get h n) = Some k -> n_task (get h n) = Some n /\ n_jobof (get h n) = Some k) /\
   (forall n t, n_task (get h n) = Some t -> exists k, n_sub (get h t) = Some k).
+
+(* `finite h v`: every chain of references that the walk follows from v ends (no configuration contains
+   itself, directly or through pre-tasks, init tasks, lists, dicts or nested configurations); the
+   parameters of a node that stands for a task are not followed *)
+Inductive finite (h : heap) : value -> Prop :=
+  | f_atom : finite h VAtom
+  | f_list : forall l, (forall v, In v l -> finite h v) -> finite h (VList l)
+  | f_dict : forall l, (forall kv, In kv l -> finite h (fst kv)) -> (forall kv, In kv l -> finite h (snd kv)) ->
+               finite h (VDict l)
+  | f_ref : forall n,
+               (forall p, In p (n_pre (get h n)) -> finite h (VRef p)) ->
+               (forall p, In p (n_init (get h n)) -> finite h (VRef p)) ->
+               (n_task (get h n) = None \/ n_loaded (get h n) = true ->
+                forall v, In v (n_fields (get h n)) -> finite h v) ->
+               finite h (VRef n).
+
